@@ -385,6 +385,8 @@ class Run:
         if self.violations:
             for v in self.violations:
                 print(f"  -> {v['key']}: {v['what']}")
+            for n in getattr(self, "notes", []):
+                print(f"  ({n})")
         return 1 if self.violations else 0
 
 
@@ -516,6 +518,12 @@ def main(spec, argv):
             # the search compares the REAL code with the Spec / monitors and registers violations that
             # come with a concrete failing input; it returns the broken items it could not explain
             unexplained = spec.search(run, broken)
+            if unexplained and any(not v["no_input"] for v in run.violations):
+                # a failing input was found on the real code: the obligations that no longer check are part of the same report
+                # (listed in the evidence and below the VIOLATION lines), not a second violation "without failing input"
+                run.coverage["also_no_longer_checking"] = [{k: v for k, v in b.items() if k != "cases"} for b in unexplained]
+                run.notes = ["also no longer checking: " + "; ".join(f"{b['kind']} {b['name']}" for b in unexplained)[:600]]
+                unexplained = []
             if unexplained:
                 names = "; ".join(f"{b['kind']} {b['name']}" for b in unexplained)
                 run.violation(f"{run.prop}:unverified:" + "|".join(sorted(b['name'] for b in unexplained))[:200],
